@@ -113,7 +113,7 @@ def crash_kind(text):
     """Top library frame of a panic."""
     m = re.search(r"panic: (.*)", text)
     msg = m.group(1).strip() if m else "crash"
-    fr = re.findall(r"github\.com/at-wat/mqtt-go\.([^\s(]+(?:\([^)]*\))?[^\s(]*)\(", text)
+    fr = re.findall(r"github\.com/at-wat/mqtt-go\.((?:\(\*?\w+\)\.)?[\w.]+)\(", text)
     top = fr[0] if fr else "?"
     top = re.sub(r"\.func\d+(\.\d+)*$", "", top)
     return "panic@" + top, msg
